@@ -13,68 +13,12 @@ OUTSIDE = [".S back ends (salsa20 xmm6, sandy2x)", "poly1305 SSE2 arithmetic", "
 DISP = ["chacha20", "salsa20", "poly1305", "x25519", "aegis128l", "aegis256", "blake2b", "argon2", "aes256gcm-available"]
 
 
-CUSTOM = True
 ENGINE = "cbmc-harness + irsym"
 TECHNIQUE = ("CBMC bounded model checking of runtime.c / dispatchers / helpers for all register and feature values; SIMD back ends vs reference "
              "units by symbolic execution of clang-14 LLVM IR over a shared bit-level XOR-AND graph (structural identity + kissat SAT sweeping)")
 
 
-def run(prop, tier, seed, only=None, keep=False):
-    """E1 obligations (below) + E2 equivalence obligations (irsym/equiv_targets.py), one evidence file"""
-    import json, os, re, shutil, subprocess, sys, time
-    from concurrent.futures import ThreadPoolExecutor
-    import vlib
-    VERIF = vlib.VERIF
-    work = os.path.join(VERIF, ".work", "C10e2-%d" % os.getpid())
-    shutil.rmtree(work, ignore_errors=True)
-    os.makedirs(work)
-    lst = subprocess.run(["python3-vt", "-m", "irsym.equiv_targets", "list", tier], cwd=VERIF, stdout=subprocess.PIPE, stderr=subprocess.PIPE)
-    try:
-        targets = json.loads(lst.stdout.decode().strip().split("\n")[-1])
-    except Exception:
-        targets = []
-    jobs = [(n, i, ps[i]) for n, cnt, ps in targets for i in range(cnt) if not only or re.search(only, "equiv-" + n)]
-
-    def one(job):
-        n, i, ps = job
-        t0 = time.time()
-        try:
-            r = subprocess.run(["python3-vt", "-m", "irsym.equiv_targets", n, tier, str(i), work], cwd=VERIF, stdout=subprocess.PIPE,
-                               stderr=subprocess.PIPE, timeout=300 if tier == 'quick' else 2600)
-            d = json.loads(r.stdout.decode().strip().split("\n")[-1])
-        except Exception as e:
-            d = {"target": n, "params": ps, "status": "inconclusive", "detail": "runner: %r" % (e,)}
-        name = "equiv-%s-%s" % (n, re.sub(r"[^0-9a-z]+", "", str(ps)) or "all")
-        rdir, rep = None, None
-        if d["status"] == "violation":
-            rdir = os.path.join(VERIF, "replays", "%s-%s" % (prop, name))
-            shutil.rmtree(rdir, ignore_errors=True)
-            os.makedirs(rdir)
-            json.dump(d.get("assignment") or {}, open(os.path.join(rdir, "assignment.json"), "w"))
-            json.dump(d, open(os.path.join(rdir, "inputs.json"), "w"), indent=1, default=str)
-            with open(os.path.join(rdir, "run.sh"), "w") as f:
-                f.write("#!/bin/sh\n# concrete re-execution of both units' LLVM IR on the counterexample input; exit 1 = outputs differ\n"
-                        "cd /verif && mkdir -p .work/replay-c10 && exec python3-vt -m irsym.equiv_targets replay '%s' %s %d .work/replay-c10 '%s/assignment.json'\n"
-                        % (n, tier, i, rdir))
-            os.chmod(os.path.join(rdir, "run.sh"), 0o755)
-            rr = subprocess.run(["sh", os.path.join(rdir, "run.sh")], stdout=subprocess.PIPE, stderr=subprocess.STDOUT)
-            rep = rr.returncode == 1
-            if not rep:
-                d["status"], d["detail"] = "inconclusive", "cex-not-reproduced: " + rr.stdout.decode(errors="replace")[-200:]
-        info = "; ".join("%s=%s" % (k, d.get(k)) for k in ("output_bits", "structurally_identical_bits", "sat_calls", "merged", "graph_nodes") if k in d)
-        return vlib.ExtraResult(name, "simd-equivalence-" + n.split("-")[0], d["status"],
-                                desc="E2 irsym: %s back end == reference unit on shared symbolic key/nonce/counter/message (bit-level graph; %s)" % (n, info),
-                                bounds="public shape %s; all other inputs symbolic" % ps, wall=d.get("wall_s", time.time() - t0),
-                                reason=d.get("detail", ""), replay_dir=rdir, replayed=rep, queries=1 + int(d.get("sat_calls", 0) or 0),
-                                solver_s=float(d.get("sat_time_s", 0) or 0))
-    with ThreadPoolExecutor(8) as ex:
-        extra = list(ex.map(one, jobs))
-    shutil.rmtree(work, ignore_errors=True)
-    obs = obligations(tier)
-    if only:
-        obs = [o for o in obs if re.search(only, o.name)]
-    return vlib.run_check(prop, obs, tier, seed, level_text=LEVEL_TEXT, assumptions=ASSUMPTIONS, outside=OUTSIDE, trusted=TRUSTED,
-                          only=None if not only else only, keep=keep, extra=extra)
+E2_EQUIV = ["chacha20-ssse3", "chacha20-avx2", "salsa20-sse2", "salsa20-avx2", "blake2b-ssse3", "blake2b-sse41", "blake2b-avx2"]
 
 
 def obligations(tier):
